@@ -18,7 +18,7 @@
 (* selected by e.chk so that one recorded call can be validated against    *)
 (* one property at a time; Chk prints the failing clause.                  *)
 (***************************************************************************)
-EXTENDS Region, TLC, FiniteSets
+EXTENDS Sweep, TLC
 
 VARIABLES engines,   \* id -> [kind, prec, subj, clip, open, pc, rev, usedTree, nexec]
           offsets,   \* id -> [groups, miter, arc, pc, rev]
@@ -883,4 +883,18 @@ SchedRunOK(e, idx) ==
   /\ Chk("GENERATOR", idx, e.forced => (e.observed = e.sched /\ \A p \in 1..e.n : CountIn(e.sched, p) = e.s))
   /\ Has(e, "C18") => Chk("C18", idx, /\ \A k \in 1..Len(e.calls) : e.calls[k].out = "ok" /\ e.calls[k].same
                                      /\ e.inputsSame /\ ~e.race)
+
+(***************************************************************************)
+(* Component machine: the implementation's active edge list at every       *)
+(* scan-line against the specification's sweep (Sweep.tla, S1..S5).        *)
+(***************************************************************************)
+SweepEvOK(e, idx) ==
+  /\ Chk("OUT", idx, OutOK(e))
+  /\ Has(e, "SWEEP") =>
+       LET inputs == InputEdges(e.subj, e.clip) IN
+       /\ Chk("S5", idx, S5Scanlines(e.subj, e.clip, e.beams))
+       /\ Chk("S1", idx, \A k \in 1..Len(e.beams) : S1Membership(inputs, e.beams[k]))
+       /\ Chk("S2", idx, \A k \in 1..Len(e.beams) : S2Order(e.beams[k]))
+       /\ Chk("S3", idx, \A k \in 1..Len(e.beams) : S3Winding(e.fr, e.beams[k]))
+       /\ Chk("S4", idx, \A k \in 1..Len(e.beams) : S4Contribution(e.ct, e.fr, e.beams[k]))
 =============================================================================
